@@ -220,11 +220,11 @@ func c14Judge(env *hx.Env, files hx.Files, m c14Meta) (hx.Verdict, string) {
 		}
 		return hx.Pass, "rejected"
 	}
-	if m.Args != nil || m.Env != nil {
-		return hx.Pass, "accepted"
-	}
 	if m.MustReject {
 		return hx.Failf("C14|accepted-malformed|"+m.Note, "input with a planted malformation (%s) is accepted (exit 0)\n%s\n--- output ---\n%s", m.Note, m.Setup, o.Out), "accepted-malformed"
+	}
+	if (m.Args != nil || m.Env != nil) && m.Methods == 0 {
+		return hx.Pass, "accepted" // an odd invocation: the output may be anywhere
 	}
 	// success: no method may be dropped
 	if !o.HasOut {
@@ -374,6 +374,11 @@ func TestC14(t *testing.T) {
 			rec.Class("planted:in-an-interface-that-embeds-a-converter-base")
 		}
 		m := c14Meta{Setup: sb.String(), PlantedLines: planted, MustReject: true, Methods: k + 1, Note: pl[0]}
+		if rapid.IntRange(0, 2).Draw(rt, "withLog") == 0 {
+			// the diagnostics on stderr are the same with -log
+			m.Args = []string{"-log", pg.SetupPath}
+			rec.Class("planted:run-with-log")
+		}
 		files := c14Files(m.Setup)
 		v, class := c14Judge(env, files, m)
 		rec.Eval()
@@ -479,6 +484,22 @@ func TestC14(t *testing.T) {
 		case 1:
 			sb.WriteString("//go:build convergen\n\npackage home\n\ntype Convergen interface {\n\tConvertBroken(*HA *HB\n}\n")
 			hostile = true
+		case 3:
+			// valid: the same method name under different receivers in two (or three) interfaces, with the same receiver
+			// variable name - every one of them must get its function
+			rv := rapid.SampledFrom([]string{"r", "m", "x"}).Draw(rt, "recvVar")
+			rv2 := rv
+			if rapid.IntRange(0, 3).Draw(rt, "otherRecvVar") == 0 {
+				rv2 = "q"
+			}
+			sb.WriteString(c14Head)
+			fmt.Fprintf(&sb, "type Convergen interface {\n\t// :recv %s\n\tConvertToOther(*HA) *HB\n\tConvertPlain0(*HA) *HB\n}\n\n", rv)
+			fmt.Fprintf(&sb, "// :convergen\ntype Second interface {\n\t// :recv %s\n\tConvertToOther(*HB) *HA\n}\n\n", rv2)
+			methods = 3
+			if rapid.Bool().Draw(rt, "third") {
+				fmt.Fprintf(&sb, "// :convergen\ntype Third interface {\n\t// :recv %s\n\tConvertToOther(*HC) *HA\n\tConvertPlain1(*HC) *HB\n}\n\ntype HC struct{ X int }\n\n", rv)
+				methods = 5
+			}
 		case 2:
 			sb.WriteString("//go:build convergen\n\npackage home\n\ntype Convergen struct{}\n\n// :convergen\ntype NotIface int\n\n// :convergen\nfunc ConvertF() {}\n")
 			hostile = true
